@@ -524,7 +524,14 @@ def run(ctx):
 def replay(ctx, body):
     case = body.get('input') or (body.get('mismatching_cases') or [{}])[0].get('input')
     if not case:
-        print('replay: nothing to replay in this file (proof obligations: %s)' % body.get('no_longer_checks'))
+        # a replay that names broken proof obligations only: regenerate, rebuild and re-check them
+        build_ok, obl, regen = core.std_setup(ctx)
+        print('regeneration: %s' % json.dumps(regen))
+        if build_ok and not obl['problems'] and obl['obligations'] and obl['discharged'] == obl['obligations']:
+            print('replay: all %d proof obligations of C11 check against the regenerated definitions now' % obl['obligations'])
+            return 0
+        print('still broken: %s' % json.dumps(obl['problems'])[:1500])
+        print('VIOLATION property=C11 replay=%s no-failing-input-found' % body.get('replay_cmd', '').split()[-1])
         return 1
     r = run_impl_cases([case])[0]
     print(json.dumps(r, indent=1)[:3000])
